@@ -19,7 +19,9 @@ LEVEL_TEXT = ("Bounded symbolic execution of the real Expression.at()/_evaluate(
 OPTS = {"quick": {"fp_timeout_ms": 40000, "job_budget_s": 90}, "thorough": {"fp_timeout_ms": 180000, "job_budget_s": 400}}
 BOUNDS = {
     "quick": {"families": "F1 node lemmas over arbitrary-valued children (all 15 constructors, n<=5, bases e/2/0.5/1, symbolic base, "
-              "symbolic constant, arity 0..3), DAG sharing, stratified F2 (parent x child kind), bare-number spelling, warm-cache variants",
+              "symbolic constant, arity 0..3), DAG sharing and equal-but-distinct twins (binary and n-ary), operands equal up to one symbolic constant, stratified F2 "
+              "(parent x child kind), bare-number spelling, warm-cache variants incl. main point first / other point elsewhere / main point again; integer powers at 16 "
+              "integer points (real runs, exact rational reference)",
               "variables": "<=4 symbolic coordinates", "outside": "deeper trees, n>7, arity>4, overflow/underflow, rounding size"},
     "thorough": {"families": "F1 (n<=7, arity<=4), DAG sharing, all of F2 (every parent over every level-1 child at every position), "
                  "F3 unary chains of depth 3, seeded F5 trees of 5-12 nodes, bare-number spelling, warm-cache variants",
